@@ -148,7 +148,7 @@ def preprocess_clause(cl, rng, n, replay):
         comp = [rng.normal(0, 1, N) + rng.uniform(-2, 2) for _ in range(3)]
         diff = bool(j % 2)
         resp = bool((j // 2) % 2)
-        sens, norm = float(rng.choice([2.0, 400.0, 0.5])), float(rng.choice([1.0, 3.0]))
+        sens, norm = float(rng.choice([2.0, 400.0, 0.5, -400.0, -0.5])), float(rng.choice([1.0, 3.0, -1.0]))      # (a polarity-reversed channel: negative flat gain)
         corners = [(None, None), (0.5, None)][(j // 4) % 2]
         L = [None, 2.0][(j // 8) % 2]
         width = 0.1
